@@ -21,9 +21,11 @@ def tiers(prop, tier):
         return [(c, 1, 'all') for c in cfgs] + [(c, 0, 300000) for c in cfgs] + [('asan-sse2@lite', 1, 'all'), ('asan-avx2@lite', 1, 'all'), ('asan-avx512@lite', 1, 'all')]
     if prop == 'C05':
         if q:
-            return [('sse2-base@lite', 0, 30000), ('avx512@lite', 0, 30000), ('sse2-vecassign@lite', 0, 30000), ('avx2-vecassign-checks@lite', 0, 30000)]
+            return [('sse2-base@lite', 0, 30000), ('avx512@lite', 0, 30000), ('sse2-vecassign@lite', 0, 30000), ('avx2-vecassign-checks@lite', 0, 30000),
+                    ('avx2-mapparent@lite', 0, 30000)]
         cfgs = ['sse2-base', 'sse42', 'avx', 'avx2', 'avx512', 'avx512-cxx17', 'sse2-vecassign', 'avx2-vecassign', 'avx512-vecassign', 'avx2-vecassign-checks',
                 'avx2-checks', 'avx2-dontalign', 'scalar', 'O0-debug', 'O3-avx2', 'clang-sse2', 'clang-avx2', 'clang-avx512']
+        cfgs += ['sse2-mapparent', 'avx2-mapparent', 'avx512-mapparent-vecassign', 'clang-avx512-mapparent']
         return [(c, 0, 400000) for c in cfgs] + [('asan-sse2@lite', 0, 50000), ('asan-avx2@lite', 0, 50000)]
     if prop == 'C18':
         if q:
@@ -398,12 +400,13 @@ def viewsim_universe(t, shape, config, flags):
     uname = f'{t},{dims}'
     ops = [(f'dyn_write<{uname}>', 'dyn_write', 'K_DYN_WRITE', 'P_C05'), (f'elem_write<{uname}>', 'elem_write', 'K_ELEM_WRITE', 'P_C05'),
            (f'bad_elem<{uname}>', 'bad_elem', 'K_BAD_ELEM', 'P_C05 | P_C18')]
-    if R <= 3:
+    mapparent = 'VIEWSIM_MAP_PARENT' in flags      # destination is a TensorMap: C05 kinds only (noalias() on views of maps does not compile)
+    if R <= 3 and not mapparent:
         ops += [(f'dyn_alias<{uname}>', 'dyn_alias', 'K_DYN_ALIAS', 'P_C18'), (f'h_create<{uname}>', 'handle', 'K_H_CREATE', 'P_C18'),
                 (f'h_noalias<{uname}>', 'handle', 'K_H_NOALIAS', 'P_C18'), (f'h_assign<{uname}>', 'handle_assign', 'K_H_ASSIGN', 'P_C18')]
-    if R <= 2:
+    if R <= 2 and not mapparent:
         ops += [(f'idx_alias<{uname}>', 'idx_alias', 'K_IDX_ALIAS', 'P_C18'), (f'mask_alias<{uname}>', 'mask_alias', 'K_MASK_ALIAS', 'P_C18')]
-    if R == 2 and shape[0] == shape[1]:
+    if R == 2 and shape[0] == shape[1] and not mapparent:
         ops += [(f'diag_coinc<{uname}>', 'diag_coincident', 'K_DIAG', 'P_C18')]
     fix = []
     full = [(0, -1, 1)]
@@ -439,7 +442,7 @@ def viewsim_universe(t, shape, config, flags):
         nm = f'fix_write<{uname}|{name(w)}>'
         fix.append((nm, 'fix_write', f'FixWrite<U, seqs<{",".join(fs(r) for r in w)}>, seqs<{",".join(fs(r) for r in src)}>>::go', 'P_C05'))
     # ---- C18 fixed aliasing pairs (rank <= 3)
-    if R <= 3:
+    if R <= 3 and not mapparent:
         pairs = []
         for k in range(R):
             n = shape[k]
